@@ -86,7 +86,11 @@ def parse_doc(text):
 def run_add(ro_text, msg_text):
     """ro + msg on freshly parsed objects.
     Returns dict(cls, err, warns, tree, returned_self, other_warnings)"""
-    ro = RunningOrder.from_string(ro_text)
+    try:
+        ro = RunningOrder.from_string(ro_text)
+    except Exception as e:
+        # a running order that cannot be read: an observation like any other (the model reads every well-formed document)
+        return {'classerr': 'running order: ' + ename(e)}
     try:
         m = MosFile.from_string(msg_text)
     except Exception as e:
@@ -193,8 +197,8 @@ def run_coll(texts, allow_incomplete, strict, how='strings', tmpdir=None, again=
                                 f.write(b'<mos><mosID>BYSTANDER</mosID><ncsID>N</ncsID><messageID>424242</messageID><roReadyToAir><roID>BYSTANDER</roID><roAir>READY</roAir></roReadyToAir></mos>')
                             paths.append(written[t])
                         else:
-                            # a document supplied twice is one file listed twice - the second time spelled differently
-                            paths.append(os.path.join(os.path.dirname(written[t]), '.', os.path.basename(written[t])))
+                            # a document supplied twice is one file listed twice - in the same spelling, or another one
+                            paths.append(written[t] if i % 2 else os.path.join(os.path.dirname(written[t]), '.', os.path.basename(written[t])))
                     mc = moscollection.MosCollection.from_files(paths, allow_incomplete=allow_incomplete)
                 elif how == 's3':
                     mc = moscollection.MosCollection.from_s3(bucket_name='b', prefix='ro/', allow_incomplete=allow_incomplete)
